@@ -170,13 +170,15 @@ fn mask_ips(ip: IpAddr, mask: IpAddr) -> ExpressionResult<IpAddr> {
 
 /// Returns an ipv4 address that masks out the given number of bits.
 fn ipv4_mask(subnet_bits: u32) -> IpAddr {
-    let bits = !0u32 << (32 - subnet_bits);
+    // A `/0` subnet would shift by the full width, which overflows: its mask is all zeros.
+    let bits = u32::MAX.checked_shl(32 - subnet_bits).unwrap_or(0);
     Ipv4Addr::from(bits).into()
 }
 
 /// Returns an ipv6 address that masks out the given number of bits.
 fn ipv6_mask(subnet_bits: u32) -> IpAddr {
-    let bits = !0u128 << (128 - subnet_bits);
+    // A `/0` subnet would shift by the full width, which overflows: its mask is all zeros.
+    let bits = u128::MAX.checked_shl(128 - subnet_bits).unwrap_or(0);
     Ipv6Addr::from(bits).into()
 }
 
